@@ -69,7 +69,7 @@ pub fn run(ctx: &Ctx, rep: &mut Report) {
                 let chain = rng.pick(&[b"ethereum".to_vec(), b"e".to_vec(), b"".to_vec(), b"Ethereum-Sepolia".to_vec(), "Ætherium ü".as_bytes().to_vec()]).clone();
                 let id = format!("msg-{}-{}", round, ctr).into_bytes();
                 let src = format!("0x{}", hex(&rng.bytes(6))).into_bytes();
-                let payload = rng.bytes_upto(80);
+                let payload = if rng.chance(1, 6) { rng.bytes_of(&[1100, 4200, 9000, 17000]) } else { rng.bytes_upto(80) };
                 let conforming = MMessage {
                     source_chain: chain.clone(),
                     message_id: id.clone(),
